@@ -70,19 +70,27 @@ def run(idx: Index, rep: Report, tier: str) -> None:
     rule2 = "C05.2 T7 openness-strictness-table"
     table = {("is_left_open", True): ("GT", "lower"), ("is_left_open", False): ("GE", "lower"), ("is_right_open", True): ("LT", "upper"), ("is_right_open", False): ("LE", "upper")}
     seen = 0
+    first_args: Set[str] = set()
+    bound_names = {"lower": set(), "upper": set()}
     for n in walk_no_nested(val.node):
         if isinstance(n, ast.If) and isinstance(n.test, ast.Call) and call_name(n.test) in ("is_left_open", "is_right_open") and "duration" in norm(n.test):
             pred = call_name(n.test)
             for outcome, body in ((True, n.body), (False, n.orelse)):
                 calls = [c for s in body for c in ast.walk(s) if isinstance(c, ast.Call) and call_name(c) in ("GT", "GE", "LT", "LE")]
                 want_op, want_bound = table[(pred, outcome)]
-                ok = len(calls) == 1 and call_name(calls[0]) == want_op and len(calls[0].args) == 2 and norm(calls[0].args[0]) == "duration" and norm(calls[0].args[1]).endswith("duration." + want_bound)
+                ok = len(calls) == 1 and call_name(calls[0]) == want_op and len(calls[0].args) == 2 and isinstance(calls[0].args[0], ast.Name) and norm(calls[0].args[1]).endswith("duration." + want_bound)
                 seen += 1
+                if ok:
+                    first_args.add(calls[0].args[0].id)
+                    for st in body:
+                        if isinstance(st, ast.Assign) and isinstance(st.targets[0], ast.Name) and any(x is calls[0] for x in ast.walk(st.value)):
+                            bound_names[want_bound].add(st.targets[0].id)
                 rep.check(ok, rule2, f"duration constraint: {pred}()=={outcome} -> {want_op}(duration, duration.{want_bound})", val.loc(calls[0] if calls else n), construct=norm(calls[0]) if calls else "no comparison built", detail="" if ok else f"an action duration on the {'open' if outcome else 'closed'} {want_bound} bound is compared with the wrong strictness/bound", function=val.qualname)
     if seen < 4:
         raise AnalysisError(f"{rule2}: found {seen} of the 4 openness branches in _validate (anchor vanished)")
     # the two constraints are conjoined and registered as a condition of the action instance
-    ands = [c for c in walk_no_nested(val.node) if isinstance(c, ast.Call) and call_name(c) == "And" and {norm(a) for a in c.args} == {"lc", "uc"}]
+    rep.check(len(first_args) == 1, rule2, "duration constraint: the four comparisons constrain the same value (the instance's duration)", val.loc(), construct=f"compared values: {len(first_args)} distinct name(s)", detail="" if len(first_args) == 1 else "the lower and the upper constraint are stated about different values", function=val.qualname)
+    ands = [c for c in walk_no_nested(val.node) if isinstance(c, ast.Call) and call_name(c) == "And" and len(c.args) == 2 and all(isinstance(a, ast.Name) for a in c.args) and any(a.id in bound_names["lower"] for a in c.args) and any(a.id in bound_names["upper"] for a in c.args)]
     rep.check(bool(ands), rule2, "duration constraint: lower and upper constraint conjoined", val.loc(ands[0]) if ands else val.loc(), construct=norm(ands[0]) if ands else "", detail="" if ands else "the lower and upper duration constraints are not both enforced", function=val.qualname)
     # condition interval openness is propagated
     ii = idx.func(TT + "._instantiate_interval")
@@ -91,7 +99,8 @@ def run(idx: Index, rep: Report, tier: str) -> None:
     rep.check(ok, rule2, "_instantiate_interval propagates interval.is_left_open()", ii.loc(), construct=norm(rets[0].value) if rets else "", function=ii.qualname)
     si = idx.func(TT + "._states_in_interval")
     sic = cfg_of(si)
-    ts = [t for t in sic.nodes if t.kind == "test" and norm(t.ast) in ("not open_interval", "open_interval")]
+    bool_params = {a.arg for a in si.node.args.args + si.node.args.kwonlyargs if a.annotation is not None and norm(a.annotation).strip("\"'") == "bool"}
+    ts = [t for t in sic.nodes if t.kind == "test" and (norm(t.ast) in bool_params or (isinstance(t.ast, ast.UnaryOp) and norm(t.ast.operand) in bool_params))]
     rep.check(bool(ts), rule2, "_states_in_interval branches on open_interval", si.loc(ts[0].ast) if ts else si.loc(), construct=norm(ts[0].ast) if ts else "", detail="" if ts else "left-open and closed intervals are sampled identically", function=si.qualname)
 
     # ---- (3) conflicts
@@ -112,7 +121,12 @@ def run(idx: Index, rep: Report, tier: str) -> None:
             rep.check(arg == "state", rule3, "_apply_effect evaluates in the pre-state of the instant", ap1.loc(c), construct=norm(c)[:90], function=ap1.qualname)
     for n, c in cfg_nodes_with_call(cfg, "_apply_effects"):
         kw = {k.arg: norm(k.value) for k in c.keywords}
-        ok = kw.get("state") == "last_state" and kw.get("effects") == "now_effects"
+        # roles: the running state (rebound from the result of _apply_effects) and the batch of the instant (a
+        # list filled inside the `while … == time` loop)
+        results = {norm(a.targets[0]) for a in walk_no_nested(val.node) if isinstance(a, ast.Assign) and isinstance(a.value, ast.Call) and call_name(a.value) == "_apply_effects"}
+        running = {norm(a.targets[0]) for a in walk_no_nested(val.node) if isinstance(a, ast.Assign) and isinstance(a.targets[0], ast.Name) and norm(a.value) in results}
+        batches = {norm(x.func.value) for w in walk_no_nested(val.node) if isinstance(w, ast.While) for x in ast.walk(w) if isinstance(x, ast.Call) and call_name(x) == "append" and isinstance(x.func.value, ast.Name) and x.args and isinstance(x.args[0], ast.Tuple) and len(x.args[0].elts) == 3}
+        ok = kw.get("state") in running and kw.get("effects") in batches
         rep.check(ok, rule3, "_validate applies all effects of the instant together to the last state", val.loc(c), construct=norm(c)[:100], function=val.qualname)
         hs = [h for t in [x for x in ast.walk(val.node) if isinstance(x, ast.Try)] if any(y is c for s in t.body for y in ast.walk(s)) for h in t.handlers]
         for exc in ("UPConflictingEffectsException", "UPStateMissingFluentError"):
@@ -125,7 +139,14 @@ def run(idx: Index, rep: Report, tier: str) -> None:
     valid_rets = [n for n in cfg.nodes if n.kind == "return" and _status_of_return(n.ast) == "VALID"]
     if not valid_rets:
         raise AnalysisError("anchor vanished: no VALID return in TimeTriggeredPlanValidator._validate")
-    loops = {"durative_conditions": None, "problem.goals": None}
+    # the list of timed conditions: the local list that receives (interval, id, condition, instance) tuples
+    from collections import Counter
+
+    cl = Counter(norm(c.func.value) for _, c in cfg_nodes_with_call(cfg, "append") if isinstance(c.func.value, ast.Name) and c.args and isinstance(c.args[0], ast.Tuple) and len(c.args[0].elts) == 4)
+    if not cl:
+        raise AnalysisError("anchor vanished: no list of (interval, id, condition, instance) tuples in _validate")
+    cond_list = cl.most_common(1)[0][0]
+    loops = {cond_list: None, "problem.goals": None}
     for n in cfg.nodes:
         if n.kind == "for":
             it_txt = norm(n.owner.iter)
@@ -134,13 +155,14 @@ def run(idx: Index, rep: Report, tier: str) -> None:
                     loops[k] = n
     for k, l in loops.items():
         if l is None:
-            rep.bad(rule4, f"loop over {k} exists", val.loc(), construct=f"for ... in {k}", detail=f"_validate has no loop over {k}", function=val.qualname)
+            rep.bad(rule4, f"loop over {k if k != cond_list else 'the timed conditions'} exists", val.loc(), construct=f"for ... in {k}", detail=f"_validate has no loop over {k}", function=val.qualname)
             continue
         for r in valid_rets:
             p = cfg.path_avoiding(cfg.entry, r, {l})
             rep.check(p is None, rule4, f"every path to VALID passes the loop over {k}", val.loc(r.ast), construct=f"for ... in {k}", detail="" if p is None else f"a VALID result can be returned without checking {k}", function=val.qualname, path=path_text(p) if p else None)
         # inside the loop a failed check returns INVALID
-        tests = [t for t in cfg.nodes if t.kind == "test" and norm(t.ast) == "not is_satisfied" and any(x is t.owner for s in l.owner.body for x in ast.walk(s))]
+        verdicts = {norm(a.targets[0]) for s in l.owner.body for a in ast.walk(s) if isinstance(a, ast.Assign) and isinstance(a.value, ast.Call) and call_name(a.value) == "_check_condition"}
+        tests = [t for t in cfg.nodes if t.kind == "test" and isinstance(t.ast, ast.UnaryOp) and isinstance(t.ast.op, ast.Not) and norm(t.ast.operand) in verdicts and any(x is t.owner for s in l.owner.body for x in ast.walk(s))]
         ok = bool(tests)
         for t in tests:
             inner = [r for s in t.owner.body for r in ast.walk(s) if isinstance(r, ast.Return)]
@@ -154,10 +176,14 @@ def run(idx: Index, rep: Report, tier: str) -> None:
     # the condition check covers every state the interval helper yields, using that state
     for n, c in cfg_nodes_with_call(cfg, "_check_condition"):
         kw = {k.arg: norm(k.value) for k in c.keywords}
-        rep.check(kw.get("condition") in ("c", "g") and kw.get("state") in ("state", "last_state"), rule4, "_check_condition receives the loop's state and condition", val.loc(c), construct=norm(c)[:100], function=val.qualname)
+        encl = [l for l in cfg.nodes if l.kind == "for" and any(x is c for s in l.owner.body for x in ast.walk(s))]
+        targets = {x.id for l in encl for x in ast.walk(l.owner.target) if isinstance(x, ast.Name)}
+        results = {norm(a.targets[0]) for a in walk_no_nested(val.node) if isinstance(a, ast.Assign) and isinstance(a.value, ast.Call) and call_name(a.value) == "_apply_effects"}
+        running = {norm(a.targets[0]) for a in walk_no_nested(val.node) if isinstance(a, ast.Assign) and isinstance(a.targets[0], ast.Name) and norm(a.value) in results}
+        rep.check(kw.get("condition") in targets and (kw.get("state") in targets or kw.get("state") in running), rule4, "_check_condition receives the loop's state and condition", val.loc(c), construct=norm(c)[:100], function=val.qualname)
     # durative_conditions collects: duration constraint, conditions, preconditions, timed goals, invariants
-    appended = [norm(c.args[0]) for _, c in cfg_nodes_with_call(cfg, "append") if norm(c.func.value) == "durative_conditions" and c.args]
-    rep.check(len(appended) >= 5, rule4, "durative_conditions receives duration constraints, durative conditions, preconditions, timed goals and invariants", val.loc(), construct=f"{len(appended)} append sites", detail="" if len(appended) >= 5 else "one of the five condition sources is no longer registered", function=val.qualname)
+    appended = [norm(c.args[0]) for _, c in cfg_nodes_with_call(cfg, "append") if norm(c.func.value) == cond_list and c.args]
+    rep.check(len(appended) >= 5, rule4, "the list of timed conditions receives duration constraints, durative conditions, preconditions, timed goals and invariants", val.loc(), construct=f"{len(appended)} append sites", detail="" if len(appended) >= 5 else "one of the five condition sources is no longer registered", function=val.qualname)
 
     # ---- (5) T6 EffectKind
     rule5 = "C05.5 T6 effect-kinds"
